@@ -135,16 +135,18 @@ func (m *expirationMap[V]) cleanup(store store[V], policy *defaultPolicy[V], onE
 	for _, keys := range buckets {
 		for key, conflict := range keys {
 			verifPoint(policy, vpSweepKey, key)
-			expr := store.Expiration(key)
-			// Sanity check. Verify that the store agrees that this key is expired.
-			if expr.After(now) {
+			// Sanity check. Remove the key only if the store agrees that it is expired:
+			// it may have been deleted or re-written with a later or no expiration
+			// since it was put in this bucket. Check and removal are one step under
+			// the store's lock, so a concurrent re-write cannot slip in between.
+			value, expr, ok := store.DelExpired(key, conflict, now)
+			if !ok {
 				continue
 			}
 			verifPoint(policy, vpSweepChecked, key)
 
 			cost := policy.Cost(key)
 			policy.Del(key)
-			_, value := store.Del(key, conflict)
 
 			if onEvict != nil {
 				onEvict(&Item[V]{Key: key,
